@@ -288,7 +288,13 @@ func (m *Machine) selectOp(fr *frame, instr *ssa.Select) Value {
 // ---------------------------------------------------------------- goroutines
 
 func (m *Machine) spawn(fr *frame, pos token.Pos, fn Value, args []Value) {
-	if len(m.gs) >= m.opts.MaxGoroutines {
+	live := 0
+	for _, g := range m.gs {
+		if !g.done {
+			live++
+		}
+	}
+	if live >= m.opts.MaxGoroutines {
 		panic(pathEnd{kind: "unsupported", msg: fmt.Sprintf("more than %d goroutines (go at %s)", m.opts.MaxGoroutines, m.pos(pos))})
 	}
 	g := &Goroutine{id: len(m.gs), wake: make(chan struct{}, 1)}
